@@ -25,8 +25,11 @@ FuncOrigin == O("https", "other.org", "")
 Spellings == {"plain", "slash", "upper", "space"}
 
 Cfg == IF Scope = "full"
-       THEN [exact : SUBSET ExactPool, wild : SUBSET WildPool, fn : BOOLEAN, all : BOOLEAN, blank : BOOLEAN,
-             cred : BOOLEAN, pna : BOOLEAN, maxAge : {0, 600, -1}, hdrs : BOOLEAN, expose : BOOLEAN, spell : Spellings]
+       THEN {c \in [exact : SUBSET ExactPool, wild : SUBSET WildPool, fn : BOOLEAN, all : BOOLEAN, blank : BOOLEAN,
+             cred : BOOLEAN, pna : BOOLEAN, maxAge : {0, 600, -1}, hdrs : BOOLEAN, expose : BOOLEAN, spell : Spellings] :
+                     \* the secondary options are multiplied with the plain spelling only (measured: the full product is 5.9 M cases)
+                     /\ (c.spell # "plain" => ~c.pna /\ ~c.expose /\ c.maxAge = 600)
+                     /\ (c.maxAge = -1 => ~c.cred)}
        ELSE {c \in [exact : SUBSET {O("https", "example.com", ""), O("http", "example.com", "8080")}, wild : SUBSET WildPool, fn : BOOLEAN, all : BOOLEAN, blank : BOOLEAN,
                      cred : BOOLEAN, pna : BOOLEAN, maxAge : {600, -1}, hdrs : BOOLEAN, expose : BOOLEAN, spell : Spellings] :
                      c.pna = c.hdrs /\ c.expose = c.fn /\ (c.maxAge = -1 => c.spell = "plain" /\ ~c.cred)}
